@@ -99,7 +99,10 @@ pub enum Step { M(MOp), Load, SetRm, Fault(&'static str, MOp), AutoSave(bool), S
 
 fn gen_step(rng: &mut Rng, c: &Cfg) -> Step {
     let (gk, gu) = rng.pick(&c.g_rules).clone();
-    let gr = |rng: &mut Rng| gu[rng.below(gu.len())].clone();
+    // a third of the picks come from the family of rules that share their first two fields with another
+    // rule of the universe (same link implied by an exact-length and a longer rule, or in two domains)
+    let fam: Vec<Vec<String>> = gu.iter().filter(|r| gu.iter().any(|o| o != *r && o[..2] == r[..2])).cloned().collect();
+    let gr = |rng: &mut Rng| if !fam.is_empty() && rng.chance(1, 3) { fam[rng.below(fam.len())].clone() } else { gu[rng.below(gu.len())].clone() };
     let pr = |rng: &mut Rng| c.p_rules[rng.below(c.p_rules.len())].clone();
     let mop = |rng: &mut Rng| -> MOp {
         match rng.below(16) {
